@@ -9,7 +9,7 @@ def knobs(rnd):
 
 
 def run(tier):
-    progcheck.run(PROP, tier, knobs, 120, 3000, sched_mode='abandon', queries_per_prog=2,
+    progcheck.run(PROP, tier, knobs, 400, 8000, sched_mode='abandon', queries_per_prog=2,
                   rule='random programs (cut, ;, ->, \\+, meta-calls, recursion) x queries x EVERY abandonment point k '
                        '(0..#answers, cap 12): closed, dropped, or the consumer raises; after each run every Variable ever '
                        'created (weak-set hook) must be unbound, answers must equal the reference prefix, and the query '
